@@ -194,7 +194,7 @@ def main(tier):
     if tier == 'thorough':
         fps.append(('fp', 'nonemitting', 32, 3000))
     fres = run_instances(run_instance, fps + [('upsert', c, l) for c in ('BaseMatching', 'DistanceMatching') for l in (0, 1)])
-    res = gabs.run_all(rep, run_instance, instances(tier), budget, 16 * (100 if tier == 'quick' else 1500))
+    res = gabs.run_all(rep, run_instance, instances(tier), budget, 16 * (100 if tier == 'quick' else 900))
     rep.bounds = dict(operations="sequences of <=3 operations from match / increase_max_lattice_width / match(expand=True) / continue_with_distance / repeated match",
                       graphs="line2, oneway3, fork, oneway4" if tier == 'quick' else "all digraphs <=3 nodes/<=4 edges, fork, oneway4",
                       T="<=3", fp_lemma="emitting step Float64; non-emitting step Float16" + (" and Float32" if tier == 'thorough' else "") +
